@@ -184,8 +184,23 @@ def job_peak(j, seed):
     obs.append(ob_dict(ob))
     # with_prefix gives an independent model
     m2 = model.with_prefix('q_' + prefix)
-    ob = C.prove(f'{tag}:with_prefix leaves the original untouched', C.B.const(model.param_names == {prefix + k_ for k_ in params} and m2.param_names == {'q_' + prefix + k_ for k_ in params}))
+    okp = model.param_names == {prefix + k_ for k_ in params} and m2.param_names == {'q_' + prefix + k_ for k_ in params}
+    ob = C.prove(f'{tag}:with_prefix (of a model that has been used) gives a model with the new names and leaves the original untouched', C.B.const(okp))
     obs.append(ob_dict(ob))
+    if not okp:
+        cands.append(('C16:with_prefix', {**case, 'renamed_after_use': True}, f'param_names of the renamed model: {sorted(m2.param_names)}'))
+    else:
+        # the renamed model takes its own names and refuses the old ones
+        acc = []
+        for nm_, pref_ in (('new', 'q_' + prefix), ('old', prefix)):
+            for p_ in C.explore(lambda pref_=pref_: m2(xs([m_]), **{pref_ + k_: v for k_, v in params.items()}), max_paths=4)[:1]:
+                good = (p_.exc is None) if nm_ == 'new' else isinstance(p_.exc, ValueError)
+                if not good:
+                    acc.append(f'{nm_} names: {"accepted" if p_.exc is None else repr(p_.exc)[:80]}')
+        ob = C.prove(f'{tag}:renamed model takes the new names and refuses the old ones' + (': ' + '; '.join(acc) if acc else ''), C.B.const(not acc))
+        obs.append(ob_dict(ob))
+        if acc:
+            cands.append(('C16:with_prefix', {**case, 'renamed_after_use': True}, acc[0]))
     return {'obligations': obs, 'candidates': cands, 'paths': len(paths)}
 
 
@@ -332,6 +347,29 @@ def replay_real(case):
             bad.append('missing parameter accepted')
         except ValueError:
             pass
+        if case.get('renamed_after_use'):
+            x0 = sc.array(dims=['x'], values=[0.0, 1.0], unit='us')
+            base = {'amplitude': sc.scalar(1.0, unit='counts*us'), 'loc': sc.scalar(0.5, unit='us'), 'scale': sc.scalar(0.3, unit='us')}
+            if kind == 'pseudo_voigt':
+                base['fraction'] = sc.scalar(0.4)
+            used = cls(prefix=pre)
+            used(x0, **{pre + k: v for k, v in base.items()})  # use it once, as a fit does
+            m2 = used.with_prefix('q_' + pre)
+            if m2.param_names != {'q_' + pre + k for k in base}:
+                bad.append(f'with_prefix after use: param_names {sorted(m2.param_names)}')
+            try:
+                y2 = m2(x0, **{'q_' + pre + k: v for k, v in base.items()})
+                y1 = used(x0, **{pre + k: v for k, v in base.items()})
+                if not np.array_equal(y1.values, y2.values):
+                    bad.append('renamed model evaluates differently')
+            except Exception as e:  # noqa: BLE001
+                bad.append(f'renamed model refuses its own names: {type(e).__name__}: {str(e)[:100]}')
+            if pre:
+                try:
+                    m2(x0, **{pre + k: v for k, v in base.items()})
+                    bad.append('renamed model accepts the old names')
+                except ValueError:
+                    pass
         for key, mode, pname in case.get('near_miss', []):
             bp = dict(P)
             if mode.startswith('replaces'):
